@@ -15,7 +15,9 @@ RULE = ("seeded streams per function (world_to_view, view_to_orthographic_projec
         "dyadic-grid parameters times power-of-two scales (quick 2^-10..2^10, thorough 2^-30..2^30), ~12% boundary "
         "(axis-aligned cameras, unit boxes, negative-size viewports) and ~12% degenerate (target=position, up parallel "
         "to look, zero width/height/zoom, far=near, empty viewport); non-trivial = no exception and no NaN; "
-        "distinct by hash of inputs")
+        "distinct by hash of inputs; ~18% integral inputs as int64 arrays / Python ints, mixed int64/float32/float64 arrays "
+        "(judged in full), all-float32 arrays (oracle only, tolerance 1e-3), near-parallel up/look (angle 2^-16..2^-6), and a "
+        "few cameras of magnitude 2^+-520..700 that are run and recorded but not judged (kind w2v_extreme_unjudged)")
 TRUSTED = ["Coq 8.16.1 kernel, vm_compute for the correspondence evaluation",
            "axioms (Print Assumptions): ClassicalDedekindReals.sig_forall_dec, sig_not_dec, "
            "FunctionalExtensionality.functional_extensionality_dep, Classical_Prop.classic (all Coq stdlib Reals)",
@@ -27,7 +29,18 @@ CASE_IMPORTS = [("PW.model", "M_viewing")]
 # theorems of props/C12.v that hold by the definition of the model (their content is carried by the traced lemmas
 # T_canvas_compose / T_canvas_inv_compose / T_canvas_stages / T_canvas_inv_stages)
 DEFINITIONAL = ["C12_canvas_is_three_stages"]
-ASSUMPTIONS = ["theorems are about exact real arithmetic; binary64 rounding is covered only by the tolerance of the "
+ASSUMPTIONS = ["MAGNITUDE DOMAIN of world_to_view (and of the canvas function through it): the theorems are over the reals; "
+               "in binary64 they are sampled for |target - position| and |up| between 2^-40 and 2^40. Outside about "
+               "1e-154..1e154 the squared norm inside vg.normalize overflows or underflows and the code returns, WITHOUT "
+               "raising, NaN rows (e.g. target = (1e200,0,0) or up = (0,1e-200,0)), two all-zero rows (up = (0,1e200,0)) or rows "
+               "of length 0.95 (|target - position| = 3e-162). The property's quantifier does not say 'any magnitude'; these "
+               "cameras are generated (kind w2v_extreme_unjudged), their outcome is recorded in the observed data, and they are "
+               "not judged. The same power-of-two rescaling as /repo 36e7d06 (C18) would remove the restriction; not proposed "
+               "because the exact-real model and its ties would have to carry the scale factor.",
+               "array dtypes: float64 and int64 arrays and mixed int64/float32/float64 arguments are judged in full (NumPy promotes "
+               "to float64); ALL-float32 position/target/up give a single-precision frame and are judged by the oracle only, with "
+               "tolerance 1e-3 (kinds *_float32_oracle_only)",
+               "theorems are about exact real arithmetic; binary64 rounding is covered only by the tolerance of the "
                "correspondence check on sampled inputs",
                "the canvas matrix uses the float defaults near=0.1, far=2000: the traced z entries are the binary64 "
                "constants the code computes; a lemma re-proved each run bounds their distance to the exact values by 1e-12",
@@ -300,6 +313,44 @@ def _camera(rng, tier, up_fixed=None):
     return pos, target, up
 
 
+def _dtype_case(rng, fam):
+    """array arguments in other dtypes. Mixed (at least one of position/target float64): NumPy promotes to float64 at the
+    first subtraction, so the result is judged like any other. All float32: the camera frame is computed in single precision;
+    judged by the oracle with a single-precision tolerance, not compared with the exact model."""
+    c = _int_case(rng, fam)
+    c.pop("ints")
+    if fam == "canvas":
+        c["zoom"] = rng.randint(1, 16) / 4
+    names = ["position", "target"] + (["up"] if fam == "w2v" else [])
+    if rng.random() < 0.5:
+        c["dtypes"] = {n: "float32" for n in names}
+        c["kind"] = fam + "_float32_oracle_only"
+    else:
+        dt = {n: rng.choice(["int64", "float32", "float64"]) for n in names}
+        dt[rng.choice(["position", "target"])] = "float64"
+        if len(set(dt.values())) == 1:
+            dt[names[-1]] = "float32" if fam == "w2v" else "int64"
+            dt["position" if names[-1] != "position" else "target"] = "float64"
+        c["dtypes"] = dt
+        c["kind"] = fam + "_mixed_dtypes"
+    return c
+
+
+def _extreme_case(rng):
+    """|target - position| or |up| outside about 1e-154..1e154: the squared norm inside vg.normalize overflows or underflows
+    in binary64. Outside the magnitude domain stated in ASSUMPTIONS: run and recorded, never judged."""
+    big = 2.0 ** rng.choice([700, 600, 520, -520, -600, -700])
+    while True:
+        look, up = _ivec(rng, -4, 4), _ivec(rng, -4, 4)
+        if any(_cross(look, up)):
+            break
+    if rng.random() < 0.5:
+        look = [x * big for x in look]
+    else:
+        up = [x * big for x in up]
+    return {"kind": "w2v_extreme_unjudged", "position": [0.0, 0.0, 0.0], "target": look, "up": up}
+
+
 def _near_parallel_camera(rng, tier):
     """up almost (never exactly) parallel to the viewing direction: angle about 2^-16 .. 2^-6; everything dyadic"""
     while True:
@@ -328,6 +379,12 @@ def gen_cases(rng, n, tier):
         u, b = rng.random(), rng.random()
         if rng.random() < 0.18:
             cases.append(_int_case(rng, "w2v" if u < 0.3 else "ortho" if u < 0.5 else "viewport" if u < 0.7 else "canvas"))
+            continue
+        if (u < 0.3 or u >= 0.7) and rng.random() < 0.14:
+            cases.append(_dtype_case(rng, "w2v" if u < 0.3 else "canvas"))
+            continue
+        if u < 0.3 and rng.random() < 0.05:
+            cases.append(_extreme_case(rng))
             continue
         if u < 0.3:
             if b < 0.12:
@@ -411,8 +468,10 @@ def run_impl(c):
     ints = bool(c.get("ints"))
     o = {"repeat_same": True}
 
-    def arr(v):
-        return np.array(v, dtype=np.int64) if ints else np.array(v, dtype=np.float64)
+    dts = c.get("dtypes", {})
+
+    def arr(v, name=None):
+        return np.array(v, dtype={"int64": np.int64, "float32": np.float32}.get(dts.get(name), np.int64 if ints else np.float64))
 
     def num(x):
         return int(x) if ints else x
@@ -442,7 +501,7 @@ def run_impl(c):
 
     with np.errstate(all="ignore"):
         if kind == "w2v":
-            p, t, u = arr(c["position"]), arr(c["target"]), arr(c["up"])
+            p, t, u = arr(c["position"], "position"), arr(c["target"], "target"), arr(c["up"], "up")
             before = [p.copy(), t.copy(), u.copy()]
             o["fwd"] = mat(lambda: world_to_view(p, t, u))
             o["inv"] = mat(lambda: world_to_view(p, t, u, inverse=True))
@@ -456,7 +515,7 @@ def run_impl(c):
             o["fwd"] = mat(lambda: viewport_transform(*a))
             o["inv"] = mat(lambda: viewport_transform(*a, inverse=True))
         else:
-            p, t = arr(c["position"]), arr(c["target"])
+            p, t = arr(c["position"], "position"), arr(c["target"], "target")
             before = [p.copy(), t.copy()]
             w, h, zoom = num(c["w"]), num(c["h"]), num(c["zoom"])
             o["fwd"] = mat(lambda: world_to_canvas_orthographic_projection(w, h, p, t, zoom=zoom))
@@ -480,6 +539,15 @@ def run_impl(c):
         fwd = np.array(o["fwd"]).reshape(4, 4)
         o["probe_images"] = call_impl(lambda: apply_transform(fwd)(np.array(pts)).tolist())
         o["probe_single"] = call_impl(lambda: apply_transform(fwd)(np.array(pts[0])).tolist())
+    if c["kind"] == "w2v_extreme_unjudged":   # recorded for the evidence only
+        f = o["fwd"]
+        if isinstance(f, dict):
+            o["extreme_outcome"] = "raises " + f["raise"]
+        elif not all(np.isfinite(f)):
+            o["extreme_outcome"] = "nan"
+        else:
+            r = np.array(f).reshape(4, 4)[:3, :3]
+            o["extreme_outcome"] = "orthonormal" if np.allclose(r @ r.T, np.eye(3), atol=1e-6) else "finite but not orthonormal"
     # counted as trivial by the driver: an exception or NaN in either direction
     if any(isinstance(o[d], dict) or not all(np.isfinite(o[d])) for d in ("fwd", "inv")):
         o["raise"] = "degenerate"
@@ -505,6 +573,8 @@ def _obs(x):
 
 
 def coq_case(c, o):
+    if c["kind"].endswith("_unjudged") or c["kind"].endswith("_oracle_only"):
+        return "CUnjudged"
     kind = _base(c["kind"])
     f, i = _obs(o["fwd"]), _obs(o["inv"])
     if kind == "w2v":
@@ -559,8 +629,23 @@ def _inverse_clause(f, i, name):
             or _prod_check(f, i, I4, "%s(inverse=False) @ %s(inverse=True) is not the identity" % (name, name)))
 
 
+TOL64, TOL32 = TOL, Fr(1, 10 ** 3)
+
+
 def oracle(c, o):
+    """all-float32 inputs are judged with a single-precision tolerance (float32 eps 6e-8 times the conditioning of the frame)"""
+    global TOL
+    TOL = TOL32 if c["kind"].endswith("_float32_oracle_only") else TOL64
+    try:
+        return _oracle(c, o)
+    finally:
+        TOL = TOL64
+
+
+def _oracle(c, o):
     kind = _base(c["kind"])
+    if c["kind"] == "w2v_extreme_unjudged":
+        return None  # outside the magnitude domain (ASSUMPTIONS); the outcome is recorded in observed["extreme_outcome"]
     degenerate = c["kind"] in ("w2v_target_is_position", "w2v_up_parallel", "ortho_zero", "viewport_empty", "canvas_degenerate")
     if degenerate:
         return None  # outside the quantifier of the property (mirrored by the model, checked by the correspondence)
